@@ -85,6 +85,7 @@ type CustomSpec struct {
 	FailIf  *Cond
 	FKind   FailKind
 	Site    int
+	Body    []*Stmt // executed after the draws (C02 matrix)
 }
 
 func (c *CustomSpec) String() string {
@@ -101,6 +102,11 @@ func (c *CustomSpec) String() string {
 	if c.FailIf != nil {
 		s += fmt.Sprintf(" %v@site%d if %v", c.FKind, c.Site, c.FailIf)
 	}
+	if len(c.Body) > 0 {
+		var b strings.Builder
+		writeBody(&b, c.Body, 2)
+		s += " body:\n" + b.String()
+	}
 	return s + "}"
 }
 
@@ -113,6 +119,7 @@ const (
 	OpNE
 	OpMod    // feature mod M == C
 	OpInvIdx // (C02 profile only) index of the property call within the run == C
+	OpInvLT  // (C02 profile only) index of the property call within the run < C
 	OpTrue
 )
 
@@ -139,6 +146,8 @@ func (c *Cond) String() string {
 		return fmt.Sprintf("%s%%%d==%d", v, c.M, c.C)
 	case OpInvIdx:
 		return fmt.Sprintf("call#==%d", c.C)
+	case OpInvLT:
+		return fmt.Sprintf("call#<%d", c.C)
 	}
 	return "true"
 }
